@@ -201,12 +201,27 @@ type EmbShard struct {
 	ShardIndex   uint16              `dials:"shard-index"`
 }
 
+// Named containers of time.Duration (and pointers to them): the JSON and Cue
+// decoders must still substitute the duration inside a named type.
+type Backoffs []time.Duration
+
+// Deadlines is a named map of durations.
+type Deadlines map[string]time.Duration
+
+// Windows is a named array of durations.
+type Windows [2]time.Duration
+
+var c13DurationContainers = []string{"Backoffs", "Backoffs", "*Backoffs", "Deadlines", "*Deadlines", "Windows"}
+
 var c13EmbedTypes = []string{"EmbLimits", "EmbTrace", "EmbShard"}
 
 // Text-unmarshalable named collections and pointers to them.
 var c13TextColls = []string{"PeerList", "PeerList", "*PeerList", "WordList", "*WordList", "KVMap", "*KVMap"}
 
 func init() {
+	shape.RegisterBase("Backoffs", reflect.TypeOf(Backoffs(nil)))
+	shape.RegisterBase("Deadlines", reflect.TypeOf(Deadlines(nil)))
+	shape.RegisterBase("Windows", reflect.TypeOf(Windows{}))
 	shape.RegisterBase("Peer", reflect.TypeOf(Peer{}))
 	shape.RegisterBase("PeerList", peerListT)
 	shape.RegisterBase("WordList", wordListT)
@@ -234,6 +249,7 @@ var c13TextStructSlices = []string{"[]time.Time", "[]time.Time"}
 
 func c13Profile(withTextStructSlices bool) shape.Profile {
 	leaves := append(append(append([]string{}, c13Leaves...), c13StructLists...), c13TextColls...)
+	leaves = append(leaves, c13DurationContainers...)
 	if withTextStructSlices {
 		leaves = append(leaves, c13TextStructSlices...)
 	}
@@ -291,11 +307,16 @@ func assignTags(t *rapid.T, fs []shape.Field) {
 	used := map[string]bool{}
 	for i := range fs {
 		f := &fs[i]
-		if f.Kind == "embed" || f.Kind == "pembed" {
-			f.Tag = "" // an embedded struct is spelled by its leaves
+		embedded := f.Kind == "embed" || f.Kind == "pembed"
+		if embedded && rapid.Bool().Draw(t, "embedded_untagged") {
+			f.Tag = "" // an untagged embedded struct is spelled by its leaves
 			continue
 		}
 		words := f.Words
+		if embedded {
+			// a tagged embedded struct is a named section: EmbLimits -> emb-limits, ...
+			words = []string{"emb", strings.ToLower(strings.TrimPrefix(f.Type, "Emb"))}
+		}
 		if len(words) == 0 {
 			words = []string{strings.ToLower(f.Name)}
 		}
@@ -316,7 +337,7 @@ func assignTags(t *rapid.T, fs []shape.Field) {
 				// to encoders): omitempty for json/yaml/toml, flow for yaml on
 				// collections and structs
 				opts := []string{"", "", ",omitempty"}
-				if tn == "yaml" && (f.Kind != "leaf" || strings.HasPrefix(f.Type, "[]") || strings.HasPrefix(f.Type, "map[")) {
+				if tn == "yaml" && !embedded && (f.Kind != "leaf" || strings.HasPrefix(f.Type, "[]") || strings.HasPrefix(f.Type, "map[")) {
 					opts = append(opts, ",flow", ",omitempty,flow")
 				}
 				if tn == "cue" {
@@ -710,6 +731,9 @@ func facts(T reflect.Type, nodes []shape.Node, d shape.Data) leafFacts {
 				f.deepLeaf++
 			}
 			t := n.Type
+			if bt := strings.TrimPrefix(t.String(), "*"); bt == "pdec.Backoffs" || bt == "pdec.Deadlines" || bt == "pdec.Windows" {
+				f.labels["leaf:named-duration-container"] = true
+			}
 			if isTextColl(t) {
 				f.labels["leaf:text-collection"] = true
 				f.special = true
@@ -776,6 +800,9 @@ func facts(T reflect.Type, nodes []shape.Node, d shape.Data) leafFacts {
 			continue
 		}
 		f.labels["embedded-struct"] = true
+		if pn.SF.Tag.Get("dials") != "" {
+			f.labels["embedded-struct-tagged"] = true
+		}
 		st := pn.Type
 		if st.Kind() == reflect.Pointer {
 			st = st.Elem()
@@ -992,8 +1019,9 @@ var c13Assumptions = []string{
 	"integers stay within the int64 range (TOML cannot spell larger ones) and 64-bit signed values are never math.MinInt64 (Cue v0.6.0 refuses it: \"value was rounded up\"); floats are finite and written in shortest round-trip form, with a fraction or exponent in TOML (go-toml refuses an integer literal for a float field)",
 	"strings, map keys and set elements are plain ASCII words: quoting rules of the third-party parsers are not the subject",
 	"durations are written as time.Duration.String() text, or integer nanoseconds in JSON and Cue only; times are RFC 3339 UTC with second precision (a native date-time in TOML, an unquoted timestamp or a string in YAML)",
-	"no []byte, arrays of scalars, interfaces, or user pointer leaves other than pointers to the text-unmarshalable collections; null is not used (TOML has none)",
-	"embedded struct fields carry no tag of their own (a tagged one is an ordinary named field for encoding/json) and are never present-but-empty (the promoting formats cannot spell that); their leaves use names no generated sibling can have",
+	"a named duration scalar (type Wait time.Duration) is only ever an integer: none of the four decoders accepts duration text for it on the unmodified tree, which makes it the same as the named integer Timeout already in the vocabulary",
+	"no []byte, arrays other than the named array of durations, interfaces, or user pointer leaves other than pointers to the text-unmarshalable collections; null is not used (TOML has none)",
+	"embedded struct fields are never present-but-empty (the promoting formats cannot spell that); their leaves use names no generated sibling can have",
 	"lists of dials-tagged structs ([]S; S has 1-4 tagged leaves, some with a duration, a nested struct or a format-specific tag) always have at least one element: go-toml v1 cannot decode the empty array [] into a slice of structs; inside an element a zero-valued field may be left out of the document (elements are not pointerified, absent = zero); arrays of structs, slices of pointers to structs and maps of structs are left out (the transformer does not carry tags into them)",
 	"net.IP values are compared after conversion to the 16-byte form",
 	"sets are written as lists under the set-to-slice wrapper (possibly with a repeated element) and as mappings of empty mappings without it",
@@ -1003,7 +1031,7 @@ var c13Assumptions = []string{
 func TestC13Agree(t *testing.T) {
 	vrt.Check(t, vrt.Prop[C13Case]{
 		ID: "C13", Name: "agree",
-		Rule: "config types (depth<=3, <=5 fields per struct; nested and pointer structs; scalars, named scalars, durations, times, net.IP, Stamp, Color, slices, string-keyed maps, sets, collections of those, non-empty lists of dials-tagged structs whose tags differ from the field names, named collections that unmarshal themselves from text (a slice of structs, a slice of strings, a map, and pointers to them; always spelled as text) and untagged embedded structs by value and by pointer (2-5 tagged leaves, at the root and inside nested structs; leaves promoted into the parent in JSON, Cue and YAML with FlattenAnonymous, nested under the lower-cased type name in plain YAML and under the type name in TOML)) with a dials tag on every other field and a differently named json/yaml/toml/cue tag on about a quarter of them, a third of those with options (omitempty, flow); " +
+		Rule: "config types (depth<=3, <=5 fields per struct; nested and pointer structs; scalars, named scalars, durations, times, net.IP, Stamp, Color, slices, string-keyed maps, sets, collections of those, non-empty lists of dials-tagged structs whose tags differ from the field names, named collections that unmarshal themselves from text (a slice of structs, a slice of strings, a map, and pointers to them; always spelled as text) named slices, maps and arrays of durations and pointers to them, and embedded structs by value and by pointer (2-5 tagged leaves, at the root and inside nested structs; untagged: leaves promoted into the parent in JSON, Cue and YAML with FlattenAnonymous, nested under the lower-cased type name in plain YAML and under the type name in TOML; with a dials tag and sometimes a differently named format tag on the embedding field: nested under that name everywhere except YAML with FlattenAnonymous, which still promotes)) with a dials tag on every other field and a differently named json/yaml/toml/cue tag on about a quarter of them, a third of those with options (omitempty, flow); " +
 			"a history of one to three documents for the same type (independent key subsets and values, so later ones omit keys earlier ones had), decoded one after the other by every decoder (JSON, YAML, TOML, Cue and YAML with FlattenAnonymous), with one Decoder value per format for the whole history or a fresh one per document; some absent leaves appear under their dials name in the formats where the field has its own name (decoy key, must stay unset); " +
 			"non-zero defaults; any subset of leaf keys present, struct keys sometimes present with nothing below; the data is rendered by hand-written emitters to JSON, YAML, TOML and Cue (random layout: block/flow, tables/inline/dotted, quoting, key order, durations as text or integer nanoseconds) and the texts are stored in the case; " +
 			"oracle, per document on its own: each decoder's value equals the pointerified value built from that document's data (absent key = nil, whatever earlier documents held), the four values stacked over the defaults agree pairwise and equal the reference stacking model; at the end no value handed out earlier has changed; " +
